@@ -390,7 +390,10 @@ def catalogue(lentil, rng):
                      ('jitter', lambda im: lentil.jitter(im, 1.3, oversample=2)),
                      ('smear', lambda im: lentil.smear(im, 2.5, angle=30.0)),
                      ('charge_diffusion', lambda im: D.charge_diffusion(im, 0.5, 2)),
-                     ('shot_noise', lambda im: (D.shot_noise(im * 100, 'poisson', seed=7), D.shot_noise(im * 1000, 'gaussian', seed=0))),
+                     ('shot_noise', lambda im: (D.shot_noise(im * 100, 'poisson', seed=7), D.shot_noise(im * 1000, 'gaussian', seed=0),
+                                                # a frame with a few very bright pixels next to ordinary ones (every regime of the generator)
+                                                D.shot_noise(np.where(im > 5, im * 1e13, im * 100), 'poisson', seed=3),
+                                                D.shot_noise(np.where(im > 5, im * 1e13, im * 100), 'gaussian', seed=3))),
                      ('read_noise', lambda im: (D.read_noise(im, 5.0, seed=11), D.read_noise(im, 5.0, seed=0), D.dark_current(40.0, im.shape, 0.2, seed=0))),
                      ('normalize_power', lambda im: U.normalize_power(im, 2.0)),
                      ('centroid', lambda im: np.array(U.centroid(im))),
